@@ -5,20 +5,25 @@
 From Verif Require Import Lib.Bytes Json.Ast Auth.StateNeeded Auth.Checker.
 Open Scope N_scope.
 
-Lemma find_last_in k l acc x :
-  find_last k l acc = Some x -> In x l \/ acc = Some x.
-Proof.
-  revert acc; induction l as [|y l IH]; intros acc H; simpl in H; [right; exact H|].
-  apply IH in H as [H|H]; [left; right; exact H|].
-  destruct (tuple_eqb k (ev_key (snd y))).
-  - inversion H; subst. left; left; reflexivity.
-  - right; exact H.
-Qed.
-
-Lemma p_find_in p k x : p_find p k = Some x -> In x (p_events p).
-Proof. unfold p_find. intro H. apply find_last_in in H as [H|H]; [exact H|discriminate]. Qed.
-
 Section Proofs.
+  Variable matches : bytes * bytes -> json -> bool.
+  Variable sender_of : json -> bytes.
+  Notation find_last := (find_last matches).
+  Notation p_find := (p_find matches).
+
+  Lemma find_last_in k l acc x :
+    find_last k l acc = Some x -> In x l \/ acc = Some x.
+  Proof.
+    revert acc; induction l as [|y l IH]; intros acc H; simpl in H; [right; exact H|].
+    apply IH in H as [H|H]; [left; right; exact H|].
+    destruct (matches k (snd y)).
+    - inversion H; subst. left; left; reflexivity.
+    - right; exact H.
+  Qed.
+
+  Lemma p_find_in p k x : p_find p k = Some x -> In x (p_events p).
+  Proof. unfold Checker.p_find. intro H. apply find_last_in in H as [H|H]; [exact H|discriminate]. Qed.
+
   Variables CC PC JC V : Type.
   Variable load_create : option json -> option CC.
   Variable load_pl : option json -> bytes -> option PC.
@@ -34,7 +39,7 @@ Section Proofs.
   Definition p_wf (p : provider) : Prop := forall t e, In (t, e) (p_events p) -> e = ev_of t.
 
   Notation ctx := (ctx CC PC JC).
-  Notation update := (update load_create load_pl load_jr true).
+  Notation update := (update matches sender_of load_create load_pl load_jr true).
   Notation view_of := (@view_of CC PC JC) (only parsing).
 
   Definition inv (c : ctx) : Prop :=
@@ -64,7 +69,7 @@ Section Proofs.
     end.
   Definition fresh_pl (p : provider) : option json * option PC :=
     let e := p_find p key_power_levels in
-    let creator := match fst (fresh_create p) with Some ce => ev_sender ce | None => [] end in
+    let creator := match fst (fresh_create p) with Some ce => sender_of ce | None => [] end in
     match load_pl (option_map snd e) creator with
     | Some pc => (option_map snd e, Some pc)
     | None => (None, None)
@@ -88,7 +93,7 @@ Section Proofs.
 
   Lemma upd_create_spec c p :
     inv c -> p_wf p ->
-    let c' := upd_create load_create true c p in
+    let c' := upd_create matches load_create true c p in
     inv c' /\
     (option_map snd (c_create_ev c'), c_create c') = fresh_create p /\
     c_pl_ev c' = c_pl_ev c /\ c_pl c' = c_pl c /\ c_jr_ev c' = c_jr_ev c /\ c_jr c' = c_jr c.
@@ -132,18 +137,18 @@ Section Proofs.
   Lemma upd_pl_spec c p :
     inv c -> p_wf p ->
     (option_map snd (c_create_ev c), c_create c) = fresh_create p ->
-    let c' := upd_pl load_pl true c p in
+    let c' := upd_pl matches sender_of load_pl true c p in
     inv c' /\
     (option_map snd (c_pl_ev c'), c_pl c') = fresh_pl p /\
     c_create_ev c' = c_create_ev c /\ c_create c' = c_create c /\ c_jr_ev c' = c_jr_ev c /\ c_jr c' = c_jr c.
   Proof.
     intros I W FC. unfold upd_pl, fresh_pl.
     destruct I as [I1 [I2 I3]].
-    assert (CR : match c_create_ev c with Some (_, ce) => ev_sender ce | None => [] end =
-                 match fst (fresh_create p) with Some ce => ev_sender ce | None => [] end).
+    assert (CR : match c_create_ev c with Some (_, ce) => sender_of ce | None => [] end =
+                 match fst (fresh_create p) with Some ce => sender_of ce | None => [] end).
     { rewrite <- FC. simpl. destruct (c_create_ev c) as [[? ?]|]; reflexivity. }
     rewrite <- CR.
-    set (creator := match c_create_ev c with Some (_, ce) => ev_sender ce | None => [] end).
+    set (creator := match c_create_ev c with Some (_, ce) => sender_of ce | None => [] end).
     destruct (stale (c_pl_ev c) (p_find p key_power_levels)) eqn:S.
     - destruct (p_find p key_power_levels) as [[t e]|] eqn:F; simpl.
       + destruct (load_pl (Some e) creator) as [cc|] eqn:L; simpl.
@@ -180,7 +185,7 @@ Section Proofs.
 
   Lemma upd_jr_spec c p :
     inv c -> p_wf p ->
-    let c' := upd_jr load_jr true c p in
+    let c' := upd_jr matches load_jr true c p in
     inv c' /\
     c_jr c' = fresh_jr p /\
     c_create_ev c' = c_create_ev c /\ c_create c' = c_create c /\ c_pl_ev c' = c_pl_ev c /\ c_pl c' = c_pl c.
@@ -228,11 +233,11 @@ Section Proofs.
     intros I W. unfold Checker.update.
     pose proof (inv_upd_provider c p I) as I0.
     destruct (upd_create_spec _ p I0 W) as [I1 [F1 [A1 [A2 [A3 A4]]]]].
-    set (c1 := upd_create load_create true (upd_provider c p) p) in *.
+    set (c1 := upd_create matches load_create true (upd_provider c p) p) in *.
     destruct (upd_pl_spec c1 p I1 W F1) as [I2 [F2 [B1 [B2 [B3 B4]]]]].
-    set (c2 := upd_pl load_pl true c1 p) in *.
+    set (c2 := upd_pl matches sender_of load_pl true c1 p) in *.
     destruct (upd_jr_spec c2 p I2 W) as [I3 [F3 [C1 [C2 [C3 C4]]]]].
-    set (c3 := upd_jr load_jr true c2 p) in *.
+    set (c3 := upd_jr matches load_jr true c2 p) in *.
     split; [exact I3|].
     unfold Checker.view_of, fresh_view.
     rewrite C1, C2, C3, C4, F3, B1, B2.
@@ -250,8 +255,8 @@ Section Proofs.
     destruct (update_spec (ctx0 CC PC JC) p inv_ctx0 W) as [_ E0]. congruence.
   Qed.
 
-  Notation run_checker := (run_checker load_create load_pl load_jr decide).
-  Notation one_shot := (one_shot load_create load_pl load_jr decide).
+  Notation run_checker := (run_checker matches sender_of load_create load_pl load_jr decide).
+  Notation one_shot := (one_shot matches sender_of load_create load_pl load_jr decide).
 
   (* checker_reuse_transparent, for a context in any coherent state *)
   Theorem run_checker_transparent steps :
@@ -273,7 +278,7 @@ Section Proofs.
   (* as state resolution uses it: the context is created on some provider first *)
   Corollary run_after_new_context p0 steps :
     p_wf p0 -> (forall pe, In pe steps -> p_wf (fst pe)) ->
-    run_checker (new_context load_create load_pl load_jr p0) steps = map one_shot steps.
+    run_checker (new_context matches sender_of load_create load_pl load_jr p0) steps = map one_shot steps.
   Proof.
     intros W0 W. apply run_checker_transparent; [|exact W].
     apply (update_spec _ p0 inv_ctx0 W0).
